@@ -116,7 +116,7 @@ CLAIMED.update({
 CLAIMED.update({
  'C04': dict(
    technique='Lean 4 proof: header decision (a differing hash word is always the hash error), prefix-freeness of string hashing, context cancellation of the type feed by induction on one-hole contexts, one inequation per near-miss operator; digests of differing feeds are computed, not proved; all near-miss pairs and thousands of ordered pairs run on the real code',
-   text='Kernel-checked: header_rejects_type / header_rejects_align / cross_type_rejected (bytes of T read as U give the type-hash error in both modes whenever the digests differ; type word compared first), header_rejects_any_accepted_minor (every minor version the reader accepts is checked as strictly as the current one), typeFeed_ctx_cancel (for every one-hole context — vec, boxed slice, option, bound, control-flow, array, range, phantom, a field of a derived struct, nested to any depth — the feeds of the filled contexts are equal iff the feeds of the fillers are), prim_feeds_distinct / field_retyped, field_names_distinct (a field renamed or two fields swapped), variant_names_distinct (a variant renamed or variants reordered, after any common prefix), seq_kinds_distinct, array_len_distinct, copy_kind_distinct, type_name_distinct, const_value_distinct; and the two recorded findings as theorems: feed_collision_witness (two different definitions with identical type and alignment feeds) and bound_alignFeed_noop. The run records both feeds of every type from the real type_hash/align_hash with a recording Hasher and compares them and the digests with the model, and deserializes the bytes of every type as each of its near-miss mutants (generated in sub-modules under the same identifier) and as thousands of other types, both modes; the near-miss pairs again with the minor version word of the header lowered to 0 (accepted by the reader) and raised (refused).',
+   text='Kernel-checked: header_rejects_type / header_rejects_align / cross_type_rejected (bytes of T read as U give the type-hash error in both modes whenever the digests differ; type word compared first), header_rejects_any_accepted_minor (every minor version the reader accepts is checked as strictly as the current one), typeFeed_ctx_cancel (for every one-hole context — vec, boxed slice, option, bound, control-flow, array, range, phantom, a field of a derived struct, nested to any depth — the feeds of the filled contexts are equal iff the feeds of the fillers are), prim_feeds_distinct / field_retyped, field_names_distinct (a field renamed or two fields swapped), variant_names_distinct (a variant renamed or variants reordered, after any common prefix), seq_kinds_distinct, array_len_distinct, copy_kind_distinct, type_name_distinct, const_value_distinct; and the two recorded findings as theorems: feed_collision_witness (two different definitions with identical type and alignment feeds) and bound_alignFeed_noop. The run records both feeds of every type from the real type_hash/align_hash with a recording Hasher and compares them and the digests with the model, and deserializes the bytes of every type as each of its near-miss mutants (generated in sub-modules under the same identifier) and as thousands of other types, both modes; the near-miss pairs again with the minor version word of the header lowered to 0 (accepted by the reader) and raised (refused); probe c04_marker_tuples (real code only: the model has homogeneous tuples) computes the type hash of 40 PhantomData<(T1, …, Tk)> markers of different component types — every arity 1..12, two components swapped, one component replaced at every position of the 7- and 12-tuples, nestings — which must be pairwise distinct, and reads a structure tagged with one marker as the structure tagged with another (recorded finding KF-C04-3: nestings that flatten to the same sequence collide).',
    note='injectivity of the hashed stream across unrelated definitions is false (known findings KF-C04-1, KF-C04-2, replayed on every run); "feeds differ => 64-bit digests differ" is computed on the explored universe, XXH3 collision-freedom is not claimed.',
    design='5/C04'),
 })
